@@ -460,6 +460,7 @@ package trend
 
 //@ func TsiStrategy.Compute
 //@ requires consumed(snapshots) == 0
+//@ import "ema-value"
 //@ guarantees[C06] "input-close" len(arg(Tsi_Compute, 0, 0)) == len(snapshots) && (forall k :: 0 <= k && k < len(snapshots) ==> arg(Tsi_Compute, 0, 0)[k] == snapshots[k].Close)
 //@ guarantees[C06] "tsi-positive-and-above-signal-buys" forall k :: 0 <= k && k < len(res(Ma_Compute, 0)) ==> (res(Tsi_Compute, 0)[k + t.Signal.IdlePeriod()] > 0 && res(Tsi_Compute, 0)[k + t.Signal.IdlePeriod()] > res(Ma_Compute, 0)[k] ==> result[k + t.IdlePeriod()] == 1)
 //@ guarantees[C06] "tsi-negative-and-below-signal-sells" forall k :: 0 <= k && k < len(res(Ma_Compute, 0)) ==> (res(Tsi_Compute, 0)[k + t.Signal.IdlePeriod()] < 0 && res(Tsi_Compute, 0)[k + t.Signal.IdlePeriod()] < res(Ma_Compute, 0)[k] ==> result[k + t.IdlePeriod()] == 0 - 1)
@@ -470,6 +471,26 @@ package trend
 //@ ensures[C05] "range" forall kk :: 0 <= kk && kk < len(result) ==> 0 - 1 <= result[kk] && result[kk] <= 1
 //@ ensures[C03] consumed(snapshots) == len(snapshots) && closed(result)
 //@ ensures[C04] forall kk :: 0 <= kk && kk < len(result) ==> hor(result, kk) <= hor(snapshots, kk)
+//@ rel[C18] "price" param lam real
+//@ rel[C18] "price" assume lam > 0 && len(second(snapshots)) == len(snapshots) && (forall k :: 0 <= k && k < len(snapshots) ==> pscaled(second(snapshots)[k], snapshots[k], lam))
+//@ rel[C18] "price" assume istype(t.Tsi.FirstSmoothing, "trend.Ema") && istype(t.Tsi.SecondSmoothing, "trend.Ema") && istype(t.Signal, "trend.Ema") && as(t.Tsi.FirstSmoothing, "trend.Ema").Period >= 1 && as(t.Tsi.SecondSmoothing, "trend.Ema").Period >= 1 && as(t.Signal, "trend.Ema").Period >= 1
+//@ rel[C18] "price" assume forall j :: 0 <= j ==> emaS(emaSt(apcS(closings), as(t.Tsi.SecondSmoothing, "trend.Ema").Period, emam(as(t.Tsi.SecondSmoothing, "trend.Ema"))), as(t.Tsi.FirstSmoothing, "trend.Ema").Period, emam(as(t.Tsi.FirstSmoothing, "trend.Ema")), j) != 0
+//@ rel[C18] "price" step forall j :: 0 <= j && j < len(snapshots) ==> second(closings)[j] == lam * closings[j]
+//@ rel[C18] "price" use[cond] tsiS_pscale(closings, second(closings), lam, as(t.Tsi.FirstSmoothing, "trend.Ema").Period, emam(as(t.Tsi.FirstSmoothing, "trend.Ema")), as(t.Tsi.SecondSmoothing, "trend.Ema").Period, emam(as(t.Tsi.SecondSmoothing, "trend.Ema")), len(snapshots), _)
+//@ rel[C18] "price" step forall i :: 0 <= i && i < len(tsisSplice[1]) ==> tsisSplice[1][i] == tsiS(closings, as(t.Tsi.FirstSmoothing, "trend.Ema").Period, emam(as(t.Tsi.FirstSmoothing, "trend.Ema")), as(t.Tsi.SecondSmoothing, "trend.Ema").Period, emam(as(t.Tsi.SecondSmoothing, "trend.Ema")))[i] && second(tsisSplice[1])[i] == tsiS(second(closings), as(t.Tsi.FirstSmoothing, "trend.Ema").Period, emam(as(t.Tsi.FirstSmoothing, "trend.Ema")), as(t.Tsi.SecondSmoothing, "trend.Ema").Period, emam(as(t.Tsi.SecondSmoothing, "trend.Ema")))[i]
+//@ rel[C18] "price" step forall i :: 0 <= i && i < len(tsisSplice[1]) ==> second(tsisSplice[1])[i] == tsisSplice[1][i]
+//@ rel[C18] "price" use[cond] ema_cong(second(tsisSplice[1]), tsisSplice[1], as(t.Signal, "trend.Ema").Period, emam(as(t.Signal, "trend.Ema")), _)
+//@ rel[C18] "price" ensures len(second(result)) == len(result) && (forall k :: 0 <= k && k < len(result) ==> second(result)[k] == result[k])
+//@ rel[C18] "volume" param mu real
+//@ rel[C18] "volume" assume mu > 0 && len(second(snapshots)) == len(snapshots) && (forall k :: 0 <= k && k < len(snapshots) ==> vscaled(second(snapshots)[k], snapshots[k], mu))
+//@ rel[C18] "volume" assume istype(t.Tsi.FirstSmoothing, "trend.Ema") && istype(t.Tsi.SecondSmoothing, "trend.Ema") && istype(t.Signal, "trend.Ema") && as(t.Tsi.FirstSmoothing, "trend.Ema").Period >= 1 && as(t.Tsi.SecondSmoothing, "trend.Ema").Period >= 1 && as(t.Signal, "trend.Ema").Period >= 1
+//@ rel[C18] "volume" assume forall j :: 0 <= j ==> emaS(emaSt(apcS(closings), as(t.Tsi.SecondSmoothing, "trend.Ema").Period, emam(as(t.Tsi.SecondSmoothing, "trend.Ema"))), as(t.Tsi.FirstSmoothing, "trend.Ema").Period, emam(as(t.Tsi.FirstSmoothing, "trend.Ema")), j) != 0
+//@ rel[C18] "volume" step forall j :: 0 <= j && j < len(snapshots) ==> second(closings)[j] == 1 * closings[j]
+//@ rel[C18] "volume" use[cond] tsiS_pscale(closings, second(closings), 1, as(t.Tsi.FirstSmoothing, "trend.Ema").Period, emam(as(t.Tsi.FirstSmoothing, "trend.Ema")), as(t.Tsi.SecondSmoothing, "trend.Ema").Period, emam(as(t.Tsi.SecondSmoothing, "trend.Ema")), len(snapshots), _)
+//@ rel[C18] "volume" step forall i :: 0 <= i && i < len(tsisSplice[1]) ==> tsisSplice[1][i] == tsiS(closings, as(t.Tsi.FirstSmoothing, "trend.Ema").Period, emam(as(t.Tsi.FirstSmoothing, "trend.Ema")), as(t.Tsi.SecondSmoothing, "trend.Ema").Period, emam(as(t.Tsi.SecondSmoothing, "trend.Ema")))[i] && second(tsisSplice[1])[i] == tsiS(second(closings), as(t.Tsi.FirstSmoothing, "trend.Ema").Period, emam(as(t.Tsi.FirstSmoothing, "trend.Ema")), as(t.Tsi.SecondSmoothing, "trend.Ema").Period, emam(as(t.Tsi.SecondSmoothing, "trend.Ema")))[i]
+//@ rel[C18] "volume" step forall i :: 0 <= i && i < len(tsisSplice[1]) ==> second(tsisSplice[1])[i] == tsisSplice[1][i]
+//@ rel[C18] "volume" use[cond] ema_cong(second(tsisSplice[1]), tsisSplice[1], as(t.Signal, "trend.Ema").Period, emam(as(t.Signal, "trend.Ema")), _)
+//@ rel[C18] "volume" ensures len(second(result)) == len(result) && (forall k :: 0 <= k && k < len(result) ==> second(result)[k] == result[k])
 
 //@ func VwmaStrategy.Compute
 //@ requires v.Vwma.Period >= 1 && v.Sma.Period == v.Vwma.Period && consumed(c) == 0
